@@ -847,8 +847,14 @@ func parseStringLiteral(literal string) (string, error) {
 			case '1', '2', '3', '4', '5', '6', '7':
 				// TODO strict
 				value = rune(chr) - '0'
+				// ZeroToThree OctalDigit OctalDigit | FourToSeven OctalDigit
+				// (ECMA-262 5.1 - B.1.2)
+				digits := 2
+				if chr >= '4' {
+					digits = 1
+				}
 				j := 0
-				for ; j < 2; j++ {
+				for ; j < digits; j++ {
 					if len(str) < j+1 {
 						break
 					}
